@@ -12,6 +12,7 @@ pub mod c05;
 pub mod c09;
 pub mod c10;
 pub mod c11;
+pub mod c13;
 pub mod c18;
 
 pub fn run(prop: &str, ctx: &mut Ctx) -> bool {
@@ -24,6 +25,7 @@ pub fn run(prop: &str, ctx: &mut Ctx) -> bool {
         "C09" => c09::run(ctx),
         "C10" => c10::run(ctx),
         "C11" => c11::run(ctx),
+        "C13" => c13::run(ctx),
         "C18" => c18::run(ctx),
         _ => return false,
     }
@@ -40,6 +42,7 @@ pub fn replay(prop: &str, case: &Value) -> Option<Vec<Failure>> {
         "C09" => c09::replay(case),
         "C10" => c10::replay(case),
         "C11" => c11::replay(case),
+        "C13" => c13::replay(case),
         "C18" => c18::replay(case),
         _ => return None,
     })
